@@ -22,6 +22,7 @@ mod c17;
 mod c18;
 mod c19;
 mod c20;
+mod dl;
 mod life;
 mod md;
 mod util;
@@ -66,6 +67,7 @@ fn main() {
         "C20" => c20::replay(&cases, &mut rep),
         "LIFE" => life::replay(&cases, &mut rep),
         "MD" => md::replay(&cases, &mut rep),
+        "DL" => dl::replay(&cases, &mut rep),
         p => tool_error(&format!("no replay driver for {p}")),
       }
       rep.write(&args[4]);
